@@ -486,6 +486,48 @@ def cycles():
                        ("\n".join(rest + [ctx]) + "\n").encode("latin-1"))
 
 
+# ------------------------------------------------------------------ #pragma push_macro / pop_macro
+# handle_pragma_directive keeps a per-name stack of saved definitions, with a null marker for "was
+# undefined"; every branch of push/pop x {defined object-like, defined function-like, undefined} x
+# later use of the name is reached by short sequences over these lines.
+PRAGMA_LINES = [
+    '#pragma push_macro("X")', '#pragma pop_macro("X")', '#define X 1', '#define X(a) a', '#undef X',
+    'int v = X;', 'int w = X(1);', '#if X\nint y;\n#endif', '#ifdef X\nint d;\n#endif',
+    '#pragma push_macro("Y")', '#pragma pop_macro("Y")',
+    '#pragma push_macro(X)', '#pragma push_macro(")', '#pragma pop_macro("")', '#pragma push_macro("X"',
+    '#pragma pop_macro(X)', '#pragma once', '#pragma unknown', '_Pragma("push_macro(\\"X\\")")',
+]
+assert len(set(PRAGMA_LINES)) == len(PRAGMA_LINES) == 19
+
+
+def _balanced(seq):
+    """Per macro name, the pushes and pops in seq form a non-empty balanced bracket sequence."""
+    any_pair = False
+    for name in ("X", "Y"):
+        depth = 0
+        for l in seq:
+            if l == '#pragma push_macro("%s")' % name:
+                depth += 1
+            elif l == '#pragma pop_macro("%s")' % name:
+                depth -= 1
+                any_pair = True
+                if depth < 0:
+                    return False
+        if depth != 0:
+            return False
+    return any_pair
+
+
+def pragma_seqs(full=3, balanced=4):
+    """(n, label, bytes): every sequence of n <= full lines, then the push/pop-balanced ones up to `balanced`."""
+    for n in range(0, balanced + 1):
+        for t in itertools.product(PRAGMA_LINES, repeat=n):
+            if n > full and not _balanced(t):
+                continue
+            body = "\n".join(t)
+            yield n, esc(body.encode("latin-1")), (body + "\n").encode("latin-1")
+
+
 # ------------------------------------------------------------------ include (vi)
 INC_MAIN = b"#include \"inc.h\"\nint after_include;\n"
 INC_MAIN2 = b"#define A 1\n#if A\n#include \"inc.h\"\n#endif\nint after_include = A;\n"
